@@ -1,4 +1,6 @@
 import DendroModel.Model.C18
+import DendroModel.Model.C18Rates
+import DendroModel.Gen.C18Kernels
 /-! C18 — property theorems about the event loops of `Model/C18.lean` (the definitions `drv_c18` runs).
 "Well formed" and — for Kingman / contained gene trees — "bifurcating" are facts of the model's TYPES (`BT`, `GT` are
 inductive trees, `GT.join` has exactly two children), not theorems; for birth–death trees "bifurcating" is the theorem
@@ -6096,5 +6098,898 @@ theorem bd_errors_any_rates (P : BDParams) (hG : GoodStart P) (n0 : Nat) (ds : L
     · rcases Aux.finish_errors n0 s.tree rest e h1 h with h | h
       · exact Or.inl h
       · exact Or.inr (Or.inl h)
+
+
+/-! ## extension round 3: generator threading, rate traces, `mean_kingman_tree`, kernels regenerated from the source -/
+
+/-! ### reproducibility as a theorem of the scripted-generator model: a run reads a prefix of the generator's stream -/
+
+/-- the draws a pass leaves for the rest of the run -/
+def Step.rest {σ : Type} : Step σ → List Draw
+  | .done _ r => r
+  | .cont _ r => r
+
+def Step.setRest {σ : Type} (tl : List Draw) : Step σ → Step σ
+  | .done s _ => .done s tl
+  | .cont s _ => .cont s tl
+
+namespace Aux
+
+theorem bdBirth_stream (s : BDState) (nd : Tip) (rest : List Tip) (ds : List Draw) (st : Step BDState)
+    (h : bdBirth s nd rest ds = .ok st) :
+    ∃ pre, ds = pre ++ st.rest ∧ ∀ tl, bdBirth s nd rest (pre ++ tl) = .ok (st.setRest tl) := by
+  unfold bdBirth at h
+  split at h
+  · rename_i g1 g2 g3 g4 ds'
+    split at h
+    · simp at h
+    · rename_i t ht
+      simp at h
+      subst h
+      refine ⟨[.g g1, .g g2, .g g3, .g g4], by simp [Step.rest], ?_⟩
+      intro tl
+      simp [bdBirth, ht, Step.setRest]
+  · simp at h
+
+theorem bdDeath_stream (P : BDParams) (s : BDState) (nd : Tip) (rest : List Tip) (ds : List Draw) (st : Step BDState)
+    (h : bdDeath P s nd rest ds = .ok st) :
+    ds = st.rest ∧ ∀ tl, bdDeath P s nd rest tl = .ok (st.setRest tl) := by
+  unfold bdDeath at h
+  split at h
+  · rename_i he
+    simp at h; subst h
+    refine ⟨rfl, ?_⟩
+    intro tl; simp [bdDeath, he, Step.setRest]
+  · rename_i he
+    split at h
+    · simp at h
+    · rename_i t ht
+      simp at h; subst h
+      refine ⟨rfl, ?_⟩
+      intro tl; simp [bdDeath, he, ht, Step.setRest]
+
+theorem bdEvent_stream (P : BDParams) (s : BDState) (ds : List Draw) (st : Step BDState)
+    (h : bdEvent P s ds = .ok st) :
+    ∃ pre, ds = pre ++ st.rest ∧ ∀ tl, bdEvent P s (pre ++ tl) = .ok (st.setRest tl) := by
+  unfold bdEvent at h
+  split at h
+  · simp at h
+  · rename_i hsum
+    split at h
+    · simp at h
+    · rename_i p q ds'
+      split at h
+      · simp at h
+      · rename_i hpq
+        split at h
+        · simp at h
+        · rename_i k hk
+          split at h
+          · simp at h
+          · rename_i nd hnd
+            split at h
+            · rename_i hk2
+              obtain ⟨pre, hp, hall⟩ := bdBirth_stream _ _ _ _ _ h
+              refine ⟨.u p q :: pre, by simp [hp], ?_⟩
+              intro tl
+              simp only [List.cons_append, bdEvent, hsum, hpq, hk, hnd, hk2, if_true, if_false, hall tl]
+              simp
+            · rename_i hk2
+              obtain ⟨hp, hall⟩ := bdDeath_stream _ _ _ _ _ _ h
+              refine ⟨[.u p q], by simp [hp], ?_⟩
+              intro tl
+              simp only [List.cons_append, List.nil_append, bdEvent, hsum, hpq, hk, hnd, hk2, if_true, if_false, hall tl]
+              simp
+    · simp at h
+
+
+theorem bdIter_stream (P : BDParams) (s : BDState) (ds : List Draw) (st : Step BDState)
+    (h : bdIter P s ds = .ok st) :
+    ∃ pre, ds = pre ++ st.rest ∧ ∀ tl, bdIter P s (pre ++ tl) = .ok (st.setRest tl) := by
+  unfold bdIter at h
+  split at h
+  · rename_i hstop
+    simp at h; subst h
+    refine ⟨[], by simp [Step.rest], ?_⟩
+    intro tl; simp [bdIter, hstop, Step.setRest]
+  · rename_i hstop
+    split at h
+    · simp at h
+    · rename_i w ds'
+      split at h
+      · simp at h
+      · rename_i hw
+        simp only at h
+        split at h
+        · rename_i hal
+          obtain ⟨pre, hp, hall⟩ := bdEvent_stream _ _ _ _ h
+          refine ⟨.w w :: pre, by simp [hp], ?_⟩
+          intro tl
+          simp only [List.cons_append, bdIter, hstop, hw, hal, hall tl]
+          simp
+        · rename_i hal
+          simp at h; subst h
+          refine ⟨[.w w], by simp [Step.rest], ?_⟩
+          intro tl
+          simp [bdIter, hstop, hw, hal, Step.setRest]
+    · simp at h
+
+theorem bdLoop_stream (P : BDParams) : ∀ (f : Nat) (s s' : BDState) (ds ds' : List Draw), bdLoop P f s ds = .ok (s', ds') →
+    ∃ pre, ds = pre ++ ds' ∧ ∀ tl f', f ≤ f' → bdLoop P f' s (pre ++ tl) = .ok (s', tl) := by
+  intro f
+  induction f with
+  | zero => intro s s' ds ds' h; simp [bdLoop] at h
+  | succ f ih =>
+    intro s s' ds ds' h
+    unfold bdLoop at h
+    split at h
+    · simp at h
+    · rename_i s1 ds1 hit
+      simp at h
+      obtain ⟨rfl, rfl⟩ := h
+      obtain ⟨pre, hp, hall⟩ := bdIter_stream _ _ _ _ hit
+      refine ⟨pre, by simpa [Step.rest] using hp, ?_⟩
+      intro tl f' hf
+      obtain ⟨f'', rfl⟩ : ∃ f'', f' = f'' + 1 := ⟨f' - 1, by omega⟩
+      unfold bdLoop
+      simp [hall tl, Step.setRest]
+    · rename_i s1 ds1 hit
+      obtain ⟨pre1, hp1, hall1⟩ := bdIter_stream _ _ _ _ hit
+      obtain ⟨pre2, hp2, hall2⟩ := ih _ _ _ _ h
+      simp only [Step.rest] at hp1
+      refine ⟨pre1 ++ pre2, by rw [hp1, hp2, List.append_assoc], ?_⟩
+      intro tl f' hf
+      obtain ⟨f'', rfl⟩ : ∃ f'', f' = f'' + 1 := ⟨f' - 1, by omega⟩
+      unfold bdLoop
+      rw [List.append_assoc, hall1 (pre2 ++ tl)]
+      simp only [Step.setRest]
+      exact hall2 tl f'' (by omega)
+
+end Aux
+
+/-- **generator threading of `birth_death_tree`** (clause d in the model): whenever the event loop ends, it has read a prefix `used` of
+the generator's stream and left exactly the rest — monotone consumption, no draw from anywhere else — and its outcome is a function
+of `used` alone: with ANY other future of the stream (and any larger fuel) the loop ends in the same state, leaving that future
+untouched for the caller.  Two runs from equal generator states therefore agree in the tree and in the state they leave behind. -/
+theorem bd_stream_independent (P : BDParams) (f : Nat) (s s' : BDState) (ds rest : List Draw) (h : bdLoop P f s ds = .ok (s', rest)) :
+    ∃ used, ds = used ++ rest ∧ ∀ future f', f ≤ f' → bdLoop P f' s (used ++ future) = .ok (s', future) :=
+  Aux.bdLoop_stream P f s s' ds rest h
+
+namespace Aux
+
+theorem fbdEvent_stream (P : BDParams) (s : FState) (ds : List Draw) (st : Step FState)
+    (h : fbdEvent P s ds = .ok st) :
+    ∃ pre, ds = pre ++ st.rest ∧ ∀ tl, fbdEvent P s (pre ++ tl) = .ok (st.setRest tl) := by
+  unfold fbdEvent at h
+  split at h
+  · rename_i ti p q ds'
+    refine ⟨[.rint ti, .u p q], ?_⟩
+    split at h
+    · simp at h
+    · rename_i hpq
+      split at h
+      · simp at h
+      · rename_i hti
+        split at h
+        · simp at h
+        · rename_i nd hnd
+          split at h
+          · rename_i hb
+            split at h
+            · simp at h
+            · rename_i t ht
+              simp at h; subst h
+              exact ⟨by simp [Step.rest], fun tl => by simp [fbdEvent, hpq, hti, hnd, hb, ht, Step.setRest]⟩
+          · rename_i hb
+            split at h
+            · rename_i he
+              simp at h; subst h
+              exact ⟨by simp [Step.rest], fun tl => by simp [fbdEvent, hpq, hti, hnd, hb, he, Step.setRest]⟩
+            · rename_i he
+              split at h
+              · simp at h
+              · rename_i t ht
+                simp at h; subst h
+                exact ⟨by simp [Step.rest], fun tl => by simp [fbdEvent, hpq, hti, hnd, hb, he, ht, Step.setRest]⟩
+  · simp at h
+
+theorem fbdIter_stream (P : BDParams) (s : FState) (ds : List Draw) (st : Step FState)
+    (h : fbdIter P s ds = .ok st) :
+    ∃ pre, ds = pre ++ st.rest ∧ ∀ tl, fbdIter P s (pre ++ tl) = .ok (st.setRest tl) := by
+  unfold fbdIter at h
+  split at h
+  · rename_i hstop
+    simp at h; subst h
+    refine ⟨[], by simp [Step.rest], ?_⟩
+    intro tl; simp [fbdIter, hstop, Step.setRest]
+  · rename_i hstop
+    split at h
+    · simp at h
+    · rename_i w ds'
+      split at h
+      · simp at h
+      · rename_i hw
+        simp only at h
+        split at h
+        · rename_i hal
+          obtain ⟨pre, hp, hall⟩ := fbdEvent_stream _ _ _ _ h
+          refine ⟨.w w :: pre, by simp [hp], ?_⟩
+          intro tl
+          simp only [List.cons_append, fbdIter, hstop, hw, hal, hall tl]
+          simp
+        · rename_i hal
+          simp at h; subst h
+          refine ⟨[.w w], by simp [Step.rest], ?_⟩
+          intro tl
+          simp [fbdIter, hstop, hw, hal, Step.setRest]
+    · simp at h
+
+theorem fbdLoop_stream (P : BDParams) : ∀ (f : Nat) (s s' : FState) (ds ds' : List Draw), fbdLoop P f s ds = .ok (s', ds') →
+    ∃ pre, ds = pre ++ ds' ∧ ∀ tl f', f ≤ f' → fbdLoop P f' s (pre ++ tl) = .ok (s', tl) := by
+  intro f
+  induction f with
+  | zero => intro s s' ds ds' h; simp [fbdLoop] at h
+  | succ f ih =>
+    intro s s' ds ds' h
+    unfold fbdLoop at h
+    split at h
+    · simp at h
+    · rename_i s1 ds1 hit
+      simp at h
+      obtain ⟨rfl, rfl⟩ := h
+      obtain ⟨pre, hp, hall⟩ := fbdIter_stream _ _ _ _ hit
+      refine ⟨pre, by simpa [Step.rest] using hp, ?_⟩
+      intro tl f' hf
+      obtain ⟨f'', rfl⟩ : ∃ f'', f' = f'' + 1 := ⟨f' - 1, by omega⟩
+      unfold fbdLoop
+      simp [hall tl, Step.setRest]
+    · rename_i s1 ds1 hit
+      obtain ⟨pre1, hp1, hall1⟩ := fbdIter_stream _ _ _ _ hit
+      obtain ⟨pre2, hp2, hall2⟩ := ih _ _ _ _ h
+      simp only [Step.rest] at hp1
+      refine ⟨pre1 ++ pre2, by rw [hp1, hp2, List.append_assoc], ?_⟩
+      intro tl f' hf
+      obtain ⟨f'', rfl⟩ : ∃ f'', f' = f'' + 1 := ⟨f' - 1, by omega⟩
+      unfold fbdLoop
+      rw [List.append_assoc, hall1 (pre2 ++ tl)]
+      simp only [Step.setRest]
+      exact hall2 tl f'' (by omega)
+
+theorem pbLoop_stream (n : Nat) : ∀ (f : Nat) (t t' : BT) (next : Nat) (ds ds' : List Draw), pbLoop n f t next ds = .ok (t', ds') →
+    ∃ pre, ds = pre ++ ds' ∧ ∀ tl f', f ≤ f' → pbLoop n f' t next (pre ++ tl) = .ok (t', tl) := by
+  intro f
+  induction f with
+  | zero => intro t t' next ds ds' h; simp [pbLoop] at h
+  | succ f ih =>
+    intro t t' next ds ds' h
+    unfold pbLoop at h
+    split at h
+    · rename_i hge
+      simp at h
+      obtain ⟨rfl, rfl⟩ := h
+      refine ⟨[], by simp, ?_⟩
+      intro tl f' hf
+      obtain ⟨f'', rfl⟩ : ∃ f'', f' = f'' + 1 := ⟨f' - 1, by omega⟩
+      simp [pbLoop, hge]
+    · rename_i hge
+      split at h
+      · rename_i w k ds1
+        split at h
+        · simp at h
+        · rename_i hw
+          split at h
+          · simp at h
+          · rename_i t1 ht1
+            obtain ⟨pre2, hp2, hall2⟩ := ih _ _ _ _ _ h
+            refine ⟨.w w :: .choice k :: pre2, by simp [hp2], ?_⟩
+            intro tl f' hf
+            obtain ⟨f'', rfl⟩ : ∃ f'', f' = f'' + 1 := ⟨f' - 1, by omega⟩
+            simp only [List.cons_append, pbLoop, hge, hw, ht1, if_false]
+            exact hall2 tl f'' (by omega)
+      · simp at h
+
+theorem coalEvent_stream (τ : Int) (nodes nodes1 : List GT) (ds ds1 : List Draw) (h : coalEvent τ nodes ds = .ok (nodes1, ds1)) :
+    ∃ i j, ds = .samp i j :: ds1 ∧ ∀ tl, coalEvent τ nodes (.samp i j :: tl) = .ok (nodes1, tl) := by
+  unfold coalEvent at h
+  simp only at h
+  split at h
+  · simp at h
+  · rename_i i j ds'
+    split at h
+    · rename_i a b ha hb
+      split at h
+      · simp at h
+      · rename_i hij
+        simp at h
+        obtain ⟨rfl, rfl⟩ := h
+        refine ⟨i, j, rfl, ?_⟩
+        intro tl
+        simp [coalEvent, ha, hb, hij]
+    · simp at h
+  · simp at h
+
+theorem coalLoop_stream (pop : Nat) : ∀ (f : Nat) (nodes nodes' : List GT) (rem rem' : Option Int) (ds ds' : List Draw),
+    coalLoop pop f nodes rem ds = .ok (nodes', rem', ds') →
+    ∃ pre, ds = pre ++ ds' ∧ ∀ tl, coalLoop pop f nodes rem (pre ++ tl) = .ok (nodes', rem', tl) := by
+  intro f
+  induction f with
+  | zero =>
+    intro nodes nodes' rem rem' ds ds' h
+    unfold coalLoop at h
+    split at h
+    · simp at h
+    · rename_i hl
+      simp at h
+      obtain ⟨rfl, rfl, rfl⟩ := h
+      exact ⟨[], by simp, fun tl => by simp [coalLoop, hl]⟩
+  | succ f ih =>
+    intro nodes nodes' rem rem' ds ds' h
+    unfold coalLoop at h
+    split at h
+    · rename_i hl
+      simp at h
+      obtain ⟨rfl, rfl, rfl⟩ := h
+      exact ⟨[], by simp, fun tl => by simp [coalLoop, hl]⟩
+    · rename_i hl
+      split at h
+      · simp at h
+      · rename_i w ds1
+        split at h
+        · simp at h
+        · rename_i hw
+          split at h
+          · rename_i hwi
+            split at h
+            · simp at h
+            · rename_i nodes1 ds2 hev
+              obtain ⟨i, j, rfl, hall1⟩ := coalEvent_stream _ _ _ _ _ hev
+              obtain ⟨pre2, hp2, hall2⟩ := ih _ _ _ _ _ _ h
+              refine ⟨.w w :: .samp i j :: pre2, by simp [hp2], ?_⟩
+              intro tl
+              simp only [List.cons_append, coalLoop, hl, hw, hwi, if_true, if_false, hall1 (pre2 ++ tl)]
+              exact hall2 tl
+          · rename_i hwi
+            simp at h
+            obtain ⟨rfl, rfl, rfl⟩ := h
+            exact ⟨[.w w], by simp, fun tl => by simp [coalLoop, hl, hw, hwi]⟩
+      · simp at h
+
+theorem coalesce_stream (pop : Nat) (nodes out : List GT) (period : Option Int) (ds ds' : List Draw)
+    (h : coalesce pop nodes period ds = .ok (out, ds')) :
+    ∃ pre, ds = pre ++ ds' ∧ ∀ tl, coalesce pop nodes period (pre ++ tl) = .ok (out, tl) := by
+  unfold coalesce at h
+  split at h
+  · rename_i he
+    simp at h
+    obtain ⟨rfl, rfl⟩ := h
+    exact ⟨[], by simp, fun tl => by simp [coalesce, he]⟩
+  · rename_i he
+    split at h
+    · simp at h
+    · rename_i nodes' rem dsr hl
+      obtain ⟨pre, hp, hall⟩ := coalLoop_stream _ _ _ _ _ _ _ _ hl
+      refine ⟨pre, ?_, ?_⟩
+      · split at h
+        · split at h <;> (simp at h; obtain ⟨_, rfl⟩ := h; exact hp)
+        · simp at h; obtain ⟨_, rfl⟩ := h; exact hp
+      · intro tl
+        simp only [coalesce, he, hall tl]
+        split at h
+        · split at h <;> (rename_i hr; simp at h; obtain ⟨rfl, _⟩ := h; simp [hr])
+        · simp at h; obtain ⟨rfl, _⟩ := h; simp
+
+end Aux
+
+/-- **generator threading of `fast_birth_death_tree`**: as `bd_stream_independent` -/
+theorem fbd_stream_independent (P : BDParams) (f : Nat) (s s' : FState) (ds rest : List Draw) (h : fbdLoop P f s ds = .ok (s', rest)) :
+    ∃ used, ds = used ++ rest ∧ ∀ future f', f ≤ f' → fbdLoop P f' s (used ++ future) = .ok (s', future) :=
+  Aux.fbdLoop_stream P f s s' ds rest h
+
+/-- **generator threading of `uniform_pure_birth_tree`** -/
+theorem pb_stream_independent (n f : Nat) (t t' : BT) (next : Nat) (ds rest : List Draw) (h : pbLoop n f t next ds = .ok (t', rest)) :
+    ∃ used, ds = used ++ rest ∧ ∀ future f', f ≤ f' → pbLoop n f' t next (used ++ future) = .ok (t', future) :=
+  Aux.pbLoop_stream n f t t' next ds rest h
+
+/-- **generator threading of `coalesce_nodes`** (hence of every Kingman / contained-coalescent simulator, which only call it): the
+lineages returned and the draws left depend on the consumed prefix alone -/
+theorem coalesce_stream_independent (pop : Nat) (nodes out : List GT) (period : Option Int) (ds rest : List Draw)
+    (h : coalesce pop nodes period ds = .ok (out, rest)) :
+    ∃ used, ds = used ++ rest ∧ ∀ future, coalesce pop nodes period (used ++ future) = .ok (out, future) :=
+  Aux.coalesce_stream pop nodes out period ds rest h
+
+namespace Aux
+mutual
+theorem edge_stream : ∀ (S : ST) (ds : List Draw) (out : List GT) (ds' : List Draw), containedEdge S ds = .ok (out, ds') →
+    ∃ pre, ds = pre ++ ds' ∧ ∀ tl, containedEdge S (pre ++ tl) = .ok (out, tl)
+  | .node i len pop genes cs, ds, out, ds', h => by
+    simp only [containedEdge] at h
+    split at h
+    · simp at h
+    · rename_i inc ds1 hk
+      obtain ⟨pre1, hp1, hall1⟩ := kids_stream cs ds inc ds1 hk
+      obtain ⟨pre2, hp2, hall2⟩ := coalesce_stream _ _ _ _ _ _ h
+      refine ⟨pre1 ++ pre2, by rw [hp1, hp2, List.append_assoc], ?_⟩
+      intro tl
+      simp only [containedEdge, List.append_assoc, hall1 (pre2 ++ tl)]
+      exact hall2 tl
+theorem kids_stream : ∀ (cs : List ST) (ds : List Draw) (out : List GT) (ds' : List Draw), containedKids cs ds = .ok (out, ds') →
+    ∃ pre, ds = pre ++ ds' ∧ ∀ tl, containedKids cs (pre ++ tl) = .ok (out, tl)
+  | [], ds, out, ds', h => by
+    simp [containedKids] at h
+    obtain ⟨rfl, rfl⟩ := h
+    exact ⟨[], by simp, fun tl => by simp [containedKids]⟩
+  | c :: cs, ds, out, ds', h => by
+    simp only [containedKids] at h
+    split at h
+    · simp at h
+    · rename_i up ds1 he
+      split at h
+      · simp at h
+      · rename_i ups ds2 hk
+        simp at h
+        obtain ⟨rfl, rfl⟩ := h
+        obtain ⟨pre1, hp1, hall1⟩ := edge_stream c ds up ds1 he
+        obtain ⟨pre2, hp2, hall2⟩ := kids_stream cs ds1 ups ds2 hk
+        refine ⟨pre1 ++ pre2, by rw [hp1, hp2, List.append_assoc], ?_⟩
+        intro tl
+        simp only [containedKids, List.append_assoc, hall1 (pre2 ++ tl), hall2 tl]
+end
+end Aux
+
+/-- **generator threading of `contained_coalescent_tree` / `constrained_kingman_tree`** below the root: what climbs out of the children
+of a node of the containing tree, and the draws left, depend on the consumed prefix alone (the root then runs one more
+`coalesce`, `coalesce_stream_independent`, and must find the script used up) -/
+theorem contained_kids_stream_independent (cs : List ST) (ds rest : List Draw) (out : List GT) (h : containedKids cs ds = .ok (out, rest)) :
+    ∃ used, ds = used ++ rest ∧ ∀ future, containedKids cs (used ++ future) = .ok (out, future) :=
+  Aux.kids_stream cs ds out rest h
+
+
+/-- non-vacuity of the threading theorems: a run that ends after one birth, leaving the two shuffles for the tail of the call -/
+example : (bdLoop { nTips := some 2, maxTime := none, b := 2, d := 1 } 9 (bdInit { nTips := some 2, maxTime := none, b := 2, d := 1 })
+    [.w 1, .u 1 8, .g 0, .g 0, .g 0, .g 0, .perm [], .perm [1, 0]]).toOption.map (fun r => (r.1.extant.length, r.2)) =
+    some (2, [.perm [], .perm [1, 0]]) := by decide
+example : (coalesce 2 [.leaf 0 0 0, .leaf 1 0 0, .leaf 2 0 0] (some 3) [.w 1, .samp 0 2, .w 1, .samp 0 1, .w 5]).toOption.map
+    (fun r => (r.1.length, r.2)) = some (2, [.samp 0 1, .w 5]) := by decide
+
+/-! ### what the simulators hand to `rng.expovariate` -/
+
+/-- every extant tip carries the rates the caller gave (no rate evolution so far) -/
+def ConstRates (P : BDParams) (s : BDState) : Prop := ∀ t ∈ s.extant, t.br = P.b ∧ t.dr = P.d
+
+/-- `birth_rate_sd = death_rate_sd = 0`: every `gauss(0, 0)` draw is 0 -/
+def GaussZero (ds : List Draw) : Prop := ∀ v, Draw.g v ∈ ds → v = 0
+
+namespace Aux
+theorem rates_sum_const (b d : Int) : ∀ (l : List Tip), (∀ t ∈ l, t.br = b ∧ t.dr = d) → (rates l).sum = l.length * (b + d) := by
+  intro l
+  induction l with
+  | nil => intro _; simp [rates]
+  | cons t ts ih =>
+    intro h
+    obtain ⟨h1, h2⟩ := h t (by simp)
+    have := ih (fun x hx => h x (by simp [hx]))
+    simp only [rates, List.sum_cons, List.length_cons, this, h1, h2]
+    push_cast
+    grind
+
+theorem mem_of_getElem? {α : Type} (l : List α) (k : Nat) (a : α) (h : l[k]? = some a) : a ∈ l := by
+  exact List.mem_of_getElem? h
+
+theorem const_birth (P : BDParams) (s s' : BDState) (nd : Tip) (ds ds' : List Draw) (hC : ConstRates P s) (hnd : nd ∈ s.extant)
+    (hg : GaussZero ds) (h : bdBirth s nd (removeTip nd.id s.extant) ds = .ok (.cont s' ds')) : ConstRates P s' := by
+  unfold bdBirth at h
+  split at h
+  · rename_i g1 g2 g3 g4 dsr
+    split at h
+    · simp at h
+    · simp at h
+      obtain ⟨rfl, _⟩ := h
+      have e1 := hg g1 (by simp)
+      have e2 := hg g2 (by simp)
+      have e3 := hg g3 (by simp)
+      have e4 := hg g4 (by simp)
+      obtain ⟨hb, hd⟩ := hC nd hnd
+      intro t ht
+      simp only [List.mem_append, List.mem_cons, List.mem_nil_iff, or_false] at ht
+      rcases ht with ht | rfl | rfl
+      · exact hC t ((removeTip_sublist nd.id s.extant).subset ht)
+      · simp [e1, e2, hb, hd]
+      · simp [e3, e4, hb, hd]
+  · simp at h
+
+theorem const_init (P : BDParams) (nx : Nat) : ConstRates P { bdInit P with next := nx } := by
+  intro t ht
+  simp only [bdInit, List.mem_map] at ht
+  obtain ⟨i, _, rfl⟩ := ht
+  simp
+
+theorem const_death (P : BDParams) (s s' : BDState) (nd : Tip) (ds ds' : List Draw) (hC : ConstRates P s)
+    (h : bdDeath P s nd (removeTip nd.id s.extant) ds = .ok (.cont s' ds')) : ConstRates P s' := by
+  unfold bdDeath at h
+  split at h
+  · simp at h
+    obtain ⟨rfl, _⟩ := h
+    exact const_init P _
+  · split at h
+    · simp at h
+    · simp at h
+      obtain ⟨rfl, _⟩ := h
+      intro t ht
+      exact hC t ((removeTip_sublist nd.id s.extant).subset ht)
+
+theorem const_event (P : BDParams) (s s' : BDState) (ds ds' : List Draw) (hC : ConstRates P s) (hg : GaussZero ds)
+    (h : bdEvent P s ds = .ok (.cont s' ds')) : ConstRates P s' := by
+  unfold bdEvent at h
+  split at h
+  · simp at h
+  · split at h
+    · simp at h
+    · rename_i p q dsr
+      split at h
+      · simp at h
+      · split at h
+        · simp at h
+        · rename_i k hk
+          split at h
+          · simp at h
+          · rename_i nd hnd
+            have hmem : nd ∈ s.extant := List.mem_of_getElem? hnd
+            have hg' : GaussZero dsr := fun v hv => hg v (by simp [hv])
+            split at h
+            · exact const_birth P s s' nd dsr ds' hC hmem hg' h
+            · exact const_death P s s' nd dsr ds' hC h
+    · simp at h
+
+theorem const_iter (P : BDParams) (s s' : BDState) (ds ds' : List Draw) (hC : ConstRates P s) (hg : GaussZero ds)
+    (h : bdIter P s ds = .ok (.cont s' ds')) : ConstRates P s' ∧ GaussZero ds' := by
+  obtain ⟨pre, hp, _⟩ := bdIter_stream P s ds _ h
+  have hg2 : GaussZero ds' := by
+    intro v hv
+    apply hg v
+    rw [hp]; simp [Step.rest, hv]
+  refine ⟨?_, hg2⟩
+  unfold bdIter at h
+  split at h
+  · simp at h
+  · split at h
+    · simp at h
+    · rename_i w dsr
+      split at h
+      · simp at h
+      · simp only at h
+        have hg' : GaussZero dsr := fun v hv => hg v (by simp [hv])
+        split at h
+        · exact const_event P _ s' dsr ds' (by simpa [ConstRates] using hC) hg' h
+        · simp at h
+          obtain ⟨rfl, _⟩ := h
+          simpa [ConstRates] using hC
+    · simp at h
+end Aux
+
+/-- **the waiting-time rate of `birth_death_tree`** without rate evolution: the argument of `rng.expovariate` in a pass is
+`len(extant_tips) * (birth_rate + death_rate)` -/
+theorem bd_rate_arg_const (P : BDParams) (s : BDState) (r : Int) (hC : ConstRates P s) (h : bdRateArg P s = some r) :
+    r = s.extant.length * (P.b + P.d) := by
+  unfold bdRateArg at h
+  split at h
+  · simp at h
+  · simp at h; subst h
+    exact Aux.rates_sum_const P.b P.d s.extant hC
+
+/-- … along a whole run: every rate in the trace is (a number of extant tips) × (birth + death) -/
+theorem bd_rate_trace_const (P : BDParams) : ∀ (f : Nat) (s : BDState) (ds : List Draw), ConstRates P s → GaussZero ds →
+    ∀ r ∈ bdRateTrace P f s ds, ∃ n : Nat, r = n * (P.b + P.d) := by
+  intro f
+  induction f with
+  | zero => intro s ds _ _ r hr; simp [bdRateTrace] at hr
+  | succ f ih =>
+    intro s ds hC hg r hr
+    unfold bdRateTrace at hr
+    split at hr
+    · simp at hr
+    · rename_i r0 h0
+      simp only [List.mem_cons] at hr
+      rcases hr with rfl | hr
+      · exact ⟨s.extant.length, bd_rate_arg_const P s _ hC h0⟩
+      · split at hr
+        · rename_i s' ds' hit
+          obtain ⟨hC', hg'⟩ := Aux.const_iter P s s' ds ds' hC hg hit
+          exact ih s' ds' hC' hg' r hr
+        · simp at hr
+
+theorem bd_rates_const (P : BDParams) (ds : List Draw) (hg : GaussZero ds) : ∀ r ∈ bdRates P ds, ∃ n : Nat, r = n * (P.b + P.d) :=
+  bd_rate_trace_const P _ _ ds (Aux.const_init P _) hg
+
+/-- for admissible rates the rate handed to `expovariate` is positive (no `ZeroDivisionError` inside the generator) -/
+theorem bd_rate_arg_pos (P : BDParams) (s : BDState) (r : Int) (hb : 0 < P.b) (hd : 0 ≤ P.d) (hS : SInv P s) (h : bdRateArg P s = some r) : 0 < r := by
+  unfold bdRateArg at h
+  split at h
+  · simp at h
+  · simp at h; subst h
+    have := (Aux.rates_props s.extant (fun t ht => by have := hS.rates t ht; omega)).2.2 hS.ne
+    exact this
+
+/-- the trace of `fast_birth_death_tree`: always `len(extant_tips) * (birth + death)` -/
+theorem fbd_rate_trace (P : BDParams) : ∀ (f : Nat) (s : FState) (ds : List Draw), ∀ r ∈ fbdRateTrace P f s ds, ∃ n : Nat, r = n * (P.b + P.d) := by
+  intro f
+  induction f with
+  | zero => intro s ds r hr; simp [fbdRateTrace] at hr
+  | succ f ih =>
+    intro s ds r hr
+    unfold fbdRateTrace at hr
+    split at hr
+    · simp at hr
+    · rename_i r0 h0
+      simp only [List.mem_cons] at hr
+      rcases hr with rfl | hr
+      · unfold fbdRateArg at h0
+        split at h0
+        · simp at h0
+        · simp at h0; exact ⟨s.extant.length, by rw [← h0]; rfl⟩
+      · split at hr
+        · exact ih _ _ r hr
+        · simp at hr
+
+example : bdRates { nTips := some 3, maxTime := none, b := 64, d := 32 }
+    [.w 16, .u 1 8, .g 0, .g 0, .g 0, .g 0, .w 16, .u 1 8, .g 0, .g 0, .g 0, .g 0, .perm [], .perm [2, 0, 1]] = [96, 192] := by decide
+example : GaussZero [.w 16, .u 1 8, .g 0, .g 0, .g 0, .g 0, .perm []] := by intro v hv; simp at hv; exact hv
+
+
+/-! ### `mean_kingman_tree` -/
+
+/-- **`mean_kingman_tree`**: as for `pure_kingman_tree` — one leaf per taxon, binary joins (type), ultrametric — for every draw list -/
+theorem mean_kingman_result (n pop : Nat) (L : Int) (ds : List Draw) (t : GT) (h : meanKingman n pop L ds = .ok t) :
+    (t.leaves.map Prod.fst).Perm (List.range n) ∧ Ultrametric t := by
+  unfold meanKingman at h
+  split at h
+  · simp at h
+  · split at h
+    · simp at h
+    · exact kingman_result n 1 _ t h
+
+/-- sample pairs valid for a pool of `m` lineages that shrinks by one per event -/
+def ValidSamp : Nat → List (Nat × Nat) → Prop
+  | _, [] => True
+  | m, e :: es => e.1 ≠ e.2 ∧ e.1 < m ∧ e.2 < m ∧ ValidSamp (m - 1) es
+
+/-- the events `mean_kingman_tree` goes through: the expected waiting time of the current pool size, then the sampled pair -/
+def meanEvents (L : Int) (pop : Nat) : Nat → List (Nat × Nat) → List (Int × Nat × Nat)
+  | _, [] => []
+  | k, e :: es => (meanWait L pop k, e.1, e.2) :: meanEvents L pop (k - 1) es
+
+namespace Aux
+theorem choose2_nonneg (k : Nat) : 0 ≤ choose2 k := by
+  unfold choose2
+  apply Int.ediv_nonneg _ (by decide)
+  cases k with
+  | zero => simp
+  | succ m => apply Int.mul_nonneg <;> omega
+
+theorem meanWait_nonneg (L : Int) (pop k : Nat) (hL : 0 ≤ L) : 0 ≤ meanWait L pop k := by
+  unfold meanWait
+  exact Int.ediv_nonneg (Int.mul_nonneg hL (by omega)) (choose2_nonneg k)
+
+theorem meanScript_samples (L : Int) (pop : Nat) : ∀ (sm : List (Nat × Nat)) (k : Nat),
+    meanScript L pop k (sm.map (fun p => Draw.samp p.1 p.2)) = coalScript (meanEvents L pop k sm) := by
+  intro sm
+  induction sm with
+  | nil => intro k; simp [meanScript, meanEvents, coalScript]
+  | cons e es ih =>
+    intro k
+    simp only [List.map_cons, meanScript, meanEvents, coalScript, List.flatMap_cons]
+    rw [ih (k - 1)]
+    simp [coalScript]
+
+theorem meanEvents_valid (L : Int) (pop : Nat) (hL : 0 ≤ L) : ∀ (sm : List (Nat × Nat)) (k : Nat), ValidSamp k sm →
+    ValidCoal k (meanEvents L pop k sm) ∧ (meanEvents L pop k sm).length = sm.length := by
+  intro sm
+  induction sm with
+  | nil => intro k _; simp [meanEvents, ValidCoal]
+  | cons e es ih =>
+    intro k hv
+    obtain ⟨h1, h2, h3, h4⟩ := hv
+    obtain ⟨i1, i2⟩ := ih (k - 1) h4
+    exact ⟨⟨meanWait_nonneg L pop k hL, h1, h2, h3, i1⟩, by simp [meanEvents, i2]⟩
+end Aux
+
+/-- **`mean_kingman_tree` succeeds on every well-formed sample script** (`n − 1` pairs of distinct positions inside the shrinking
+pool), and the run is `pure_kingman_tree`'s on the events `meanEvents`: the `k`-lineage interval is `L·pop / choose(k, 2)` -/
+theorem mean_kingman_succeeds (n pop : Nat) (L : Int) (hn : 1 ≤ n) (hL : 0 < L) (hu : meanUnitOK L pop n = true) (sm : List (Nat × Nat))
+    (hl : sm.length + 1 = n) (hv : ValidSamp n sm) :
+    ∃ t, meanKingman n pop L (sm.map (fun p => Draw.samp p.1 p.2)) = .ok t ∧
+         kingman n 1 (coalScript (meanEvents L pop n sm)) = .ok t := by
+  obtain ⟨hv', hlen⟩ := Aux.meanEvents_valid L pop (Int.le_of_lt hL) sm n hv
+  obtain ⟨t, ht⟩ := kingman_succeeds n 1 hn (meanEvents L pop n sm) (by omega) hv'
+  refine ⟨t, ?_, ht⟩
+  unfold meanKingman
+  have h1 : (L ≤ 0 || !meanUnitOK L pop n) = false := by simp [hu]; omega
+  have h2 : (sm.map (fun p => Draw.samp p.1 p.2)).all Draw.isSamp = true := by
+    simp [List.all_eq_true, Draw.isSamp]
+  rw [Aux.meanScript_samples]
+  rw [if_neg (by simp [h1]), if_neg (by rw [h2]; simp)]
+  exact ht
+
+example : ValidSamp 3 [(2, 0), (1, 0)] := by simp [ValidSamp]
+example : meanUnitOK 3 2 3 = true := by decide
+example : (meanKingman 3 2 3 [.samp 2 0, .samp 1 0]).toOption.map (fun t => (t.leaves.map Prod.fst, t.depths.map Prod.snd)) =
+    some ([2, 0, 1], [8, 8, 8]) := by decide
+
+
+/-! ### tie A: the kernels regenerated from the source (`Gen/C18Kernels.lean`) are the model's -/
+
+namespace Aux
+theorem fracLt_pos (an ad bn bd : Int) (ha : 0 < ad) (hb : 0 < bd) : C18Kernels.fracLt an ad bn bd = decide (an * bd < bn * ad) := by
+  unfold C18Kernels.fracLt
+  rw [Int.sign_eq_one_of_pos ha, Int.sign_eq_one_of_pos hb]
+  simp
+end Aux
+
+/-- tie A: birth_death_tree hands `rng.expovariate` exactly the sum of the event rates (regenerated `bdRate`) -/
+theorem kernel_bd_rate (S : Int) : (C18Kernels.bdRate S).1 = S * (C18Kernels.bdRate S).2 ∧ (C18Kernels.bdRate S).2 ≠ 0 := by
+  simp [C18Kernels.bdRate]
+
+/-- tie A: … which is what the model's rate trace records (`bdRateArg`) -/
+theorem kernel_bd_rate_arg (P : BDParams) (s : BDState) (r : Int) (h : bdRateArg P s = some r) :
+    r * (C18Kernels.bdRate (rates s.extant).sum).2 = (C18Kernels.bdRate (rates s.extant).sum).1 := by
+  unfold bdRateArg at h
+  split at h
+  · simp at h
+  · simp at h; subst h; simp [C18Kernels.bdRate]
+
+/-- tie A: the regenerated slot order of `event_rates` / `event_nodes`: birth rate + birth event, then death rate + death event -/
+theorem kernel_bd_slots : C18Kernels.bdEventSlots = [(true, true), (false, false)] := by decide
+
+/-- tie A: the model's `rates` list has that layout: slot `k` belongs to tip `k / 2`, even = birth rate, odd = death rate (so `k % 2 == 0` in `bdEvent` is the birth test) -/
+theorem rates_getElem : ∀ (l : List Tip) (k : Nat), (rates l)[k]? = (l[k / 2]?).map (fun t => if k % 2 = 0 then t.br else t.dr) := by
+  intro l
+  induction l with
+  | nil => intro k; simp [rates]
+  | cons t ts ih =>
+    intro k
+    match k with
+    | 0 => simp [rates]
+    | 1 => simp [rates]
+    | k + 2 =>
+      have h1 : (k + 2) / 2 = k / 2 + 1 := by omega
+      have h2 : (k + 2) % 2 = k % 2 := by omega
+      simp [rates, ih, h1, h2]
+
+/-- tie A: a daughter's rate is the parent's plus the gauss draw (regenerated `bdDaughter`) -/
+theorem kernel_bd_daughter (r g : Int) : (C18Kernels.bdDaughter r g).1 = (r + g) * (C18Kernels.bdDaughter r g).2 ∧ (C18Kernels.bdDaughter r g).2 ≠ 0 := by
+  simp [C18Kernels.bdDaughter]; try grind
+
+/-- tie A: the four gauss draws are consumed in the order c1.birth, c1.death, c2.birth, c2.death -/
+theorem kernel_bd_gauss_order : C18Kernels.bdGaussOrder = [(1, true), (1, false), (2, true), (2, false)] := by decide
+
+/-- tie A: the model's birth step appends exactly the daughters the regenerated formula and draw order give -/
+theorem kernel_bd_birth (s s' : BDState) (nd : Tip) (rest : List Tip) (g1 g2 g3 g4 : Int) (ds ds' : List Draw)
+    (h : bdBirth s nd rest (.g g1 :: .g g2 :: .g g3 :: .g g4 :: ds) = .ok (.cont s' ds')) :
+    s'.extant = rest ++ [⟨s.next, (C18Kernels.bdDaughter nd.br g1).1, (C18Kernels.bdDaughter nd.dr g2).1⟩,
+                          ⟨s.next + 1, (C18Kernels.bdDaughter nd.br g3).1, (C18Kernels.bdDaughter nd.dr g4).1⟩] ∧ ds' = ds := by
+  unfold bdBirth at h
+  simp only at h
+  split at h
+  · simp at h
+  · simp at h
+    obtain ⟨h1, h2⟩ := h
+    subst h1 h2
+    simp [C18Kernels.bdDaughter]
+
+/-- tie A: the four regenerated termination tests of `birth_death_tree` are the model's `bdStop || xStop` -/
+theorem kernel_bd_stop (P : BDParams) (a x : Nat) (t : Int) :
+    (bdStop P a t || xStop P a x) =
+      ((match P.nTips with | some k => C18Kernels.bdStopExtant a k | none => false) ||
+       (match P.nExtinct with | some k => C18Kernels.bdStopExtinct x k | none => false) ||
+       (match P.nTotal with | some k => C18Kernels.bdStopTotal a x k | none => false) ||
+       (match P.maxTime with | some m => C18Kernels.bdStopTime t m | none => false)) := by
+  unfold bdStop xStop C18Kernels.bdStopExtant C18Kernels.bdStopExtinct C18Kernels.bdStopTotal C18Kernels.bdStopTime
+  cases P.nTips <;> cases P.nExtinct <;> cases P.nTotal <;> cases P.maxTime <;> simp <;> grind
+
+/-- tie A: the regenerated `total_time <= max_time` test is the model's `eventAllowed` -/
+theorem kernel_bd_event_allowed (P : BDParams) (t : Int) :
+    eventAllowed P t = (match P.maxTime with | some m => C18Kernels.bdEventAllowed t m | none => true) := by
+  unfold eventAllowed C18Kernels.bdEventAllowed
+  cases P.maxTime <;> simp
+
+/-- tie A: the regenerated tip-count / max_time tests of `fast_birth_death_tree` are the model's -/
+theorem kernel_fbd_stop (P : BDParams) (a : Nat) (t : Int) :
+    bdStop P a t = ((match P.nTips with | some k => C18Kernels.fbdStopExtant a k | none => false) ||
+                    (match P.maxTime with | some m => C18Kernels.fbdStopTime t m | none => false)) ∧
+    eventAllowed P t = (match P.maxTime with | some m => C18Kernels.fbdEventAllowed t m | none => true) := by
+  unfold bdStop eventAllowed C18Kernels.fbdStopExtant C18Kernels.fbdStopTime C18Kernels.fbdEventAllowed
+  cases P.nTips <;> cases P.maxTime <;> simp <;> grind
+
+/-- tie A: GSA loop head and argument refusal (both simulators) -/
+theorem kernel_gsa_tests (a N G : Nat) :
+    C18Kernels.bdStopGsa a G = decide (a ≥ G) ∧ C18Kernels.bdGsaRefuse G N = decide (G < N) ∧
+    C18Kernels.fbdStopGsa a G = decide (a ≥ G) := by
+  unfold C18Kernels.bdStopGsa C18Kernels.bdGsaRefuse C18Kernels.fbdStopGsa
+  simp <;> grind
+
+/-- tie A: `fast_birth_death_tree` hands `rng.expovariate` `len(extant_tips) * (birth_rate + death_rate)` -/
+theorem kernel_fbd_rate (n : Nat) (b d : Int) :
+    (C18Kernels.fbdRate n b d).1 = fbdRate n b d * (C18Kernels.fbdRate n b d).2 ∧ (C18Kernels.fbdRate n b d).2 ≠ 0 := by
+  simp [C18Kernels.fbdRate, fbdRate]; try grind
+
+/-- tie A: the regenerated birth test `random() < birth / (birth + death)` is the comparison `fbdEvent` makes -/
+theorem kernel_fbd_birth_test (p q b d : Int) (hq : 0 < q) (hbd : 0 < b + d) :
+    C18Kernels.fbdBirthTest p q b d = decide (p * (b + d) < b * q) := by
+  unfold C18Kernels.fbdBirthTest
+  rw [Aux.fracLt_pos _ _ _ _ hq hbd]
+
+/-- tie A: the regenerated `randint` bounds are exactly the indices `fbdEvent` accepts -/
+theorem kernel_fbd_pick (n : Nat) (ti : Int) :
+    (C18Kernels.fbdPickLo n ≤ ti ∧ ti ≤ C18Kernels.fbdPickHi n) ↔ (0 ≤ ti ∧ ti.toNat < n) := by
+  unfold C18Kernels.fbdPickLo C18Kernels.fbdPickHi
+  omega
+
+/-- tie A: the regenerated thresholds of `discrete_birth_death_tree` are the comparisons of `genPass` / `addGens`; one generation per pass; `uniform(0, 1)` -/
+theorem kernel_dbd_tests (p q b d rs : Int) (hq : 0 < q) (hrs : 0 < rs) :
+    C18Kernels.dbdBirth p q b d rs = decide (p * rs < b * q) ∧
+    C18Kernels.dbdDeath p q b d rs = (decide (b * q < p * rs) && decide (p * rs < (b + d) * q)) ∧
+    C18Kernels.dbdTailStop p q b d rs = decide (p * rs < (b + d) * q) ∧
+    C18Kernels.dbdGrow = 1 ∧ C18Kernels.dbdUniformLo = 0 ∧ C18Kernels.dbdUniformHi = 1 := by
+  unfold C18Kernels.dbdBirth C18Kernels.dbdDeath C18Kernels.dbdTailStop
+  simp only [Aux.fracLt_pos _ _ _ _ hq hrs, Aux.fracLt_pos _ _ _ _ hrs hq]
+  simp [C18Kernels.dbdGrow, C18Kernels.dbdUniformLo, C18Kernels.dbdUniformHi]
+
+/-- tie A: `uniform_pure_birth_tree` hands `rng.expovariate` leaves / birth_rate (cross-multiplied equality of fractions) -/
+theorem kernel_pb_rate (n : Nat) (b : Int) :
+    (C18Kernels.pbRate n b).1 * (pbRate n b).2 = (pbRate n b).1 * (C18Kernels.pbRate n b).2 := by
+  simp [C18Kernels.pbRate, pbRate]; try grind
+
+/-- tie A: the regenerated loop test of `uniform_pure_birth_tree` is `pbLoop`'s -/
+theorem kernel_pb_continue (leaves n : Nat) : C18Kernels.pbContinue leaves n = !decide (leaves ≥ n) := by
+  unfold C18Kernels.pbContinue
+  simp <;> grind
+
+/-- tie A: `combinatorics.choose(k, 2)`, computed by its current source for k ≤ 40, is `k (k − 1) / 2` (decided over the regenerated table: a bounded statement) -/
+theorem kernel_choose2 : ∀ k, k < 41 → C18Kernels.choose2Table[k]? = some (choose2 k) := by decide
+
+/-- tie A: `time_to_coalescence` hands `rng.expovariate` `choose(n_genes, 2)` (default `n_to_coalesce`) -/
+theorem kernel_coal_rate (ch : Int → Int → Int) (n : Int) :
+    (C18Kernels.coalRate ch n C18Kernels.coalDefaultK).1 = ch n 2 * (C18Kernels.coalRate ch n C18Kernels.coalDefaultK).2 ∧
+    (C18Kernels.coalRate ch n C18Kernels.coalDefaultK).2 ≠ 0 := by
+  simp [C18Kernels.coalRate, C18Kernels.coalDefaultK]
+
+/-- tie A: the regenerated `time_units` rule and `tmrca * time_units` are the model's `timeUnits` and `w * timeUnits pop` -/
+theorem kernel_coal_time (w : Int) (pop : Nat) :
+    (C18Kernels.coalTimeUnits pop).2 = 1 ∧ (C18Kernels.coalTimeUnits pop).1 = timeUnits pop ∧
+    (C18Kernels.coalTime w (timeUnits pop)).1 = w * timeUnits pop * (C18Kernels.coalTime w (timeUnits pop)).2 ∧
+    (C18Kernels.coalTime w (timeUnits pop)).2 ≠ 0 := by
+  unfold C18Kernels.coalTimeUnits C18Kernels.coalTime timeUnits
+  cases pop <;> simp <;> grind
+
+/-- tie A: loop test, period test, remaining time, padding test, sample size of `coalesce_nodes` -/
+theorem kernel_coal_tests (n : Nat) (t r : Int) :
+    C18Kernels.coalContinue n = !decide (n ≤ 1) ∧ C18Kernels.coalWithin t r = withinPeriod (some r) t ∧
+    (C18Kernels.coalRemain r t).1 = (r - t) * (C18Kernels.coalRemain r t).2 ∧ (C18Kernels.coalRemain r t).2 ≠ 0 ∧
+    C18Kernels.coalPad r = decide (r > 0) ∧ C18Kernels.coalSampleSize = 2 ∧ C18Kernels.coalPoolArg = true := by
+  unfold C18Kernels.coalContinue C18Kernels.coalWithin C18Kernels.coalRemain C18Kernels.coalPad withinPeriod
+  refine ⟨by simp <;> grind, by simp, by simp, by simp, by simp, by decide, by decide⟩
+
+/-- tie A: `expected_tmrca` is `pop / choose(k, 2)`: in units `1/L` the model's `meanWait` -/
+theorem kernel_exp_tmrca (L : Int) (pop k : Nat) (ch : Int → Int → Int) (hc : ch k 2 = choose2 k) (hd : (L * pop) % choose2 k = 0) :
+    meanWait L pop k * (C18Kernels.expTmrca ch k C18Kernels.coalDefaultK pop).2 = L * (C18Kernels.expTmrca ch k C18Kernels.coalDefaultK pop).1 := by
+  simp only [C18Kernels.expTmrca, C18Kernels.coalDefaultK, hc, meanWait]
+  exact Int.ediv_mul_cancel (Int.dvd_of_emod_eq_zero hd)
+
+/-- tie A: the regenerated start value, subtraction and hit test of `weighted_index_choice` -/
+theorem kernel_wic (p q S rn rd w : Int) (hrd : 0 < rd) :
+    C18Kernels.wicInit p q S = (p * S, q) ∧ C18Kernels.wicSub rn rd w = (rn - w * rd, rd) ∧ C18Kernels.wicHit rn rd = decide (rn < 0) := by
+  unfold C18Kernels.wicInit C18Kernels.wicSub C18Kernels.wicHit
+  rw [Aux.fracLt_pos _ _ _ _ hrd (by decide)]
+  simp
+
+/-- tie A: … are one step of the model's `wicLoop` -/
+theorem kernel_wic_step (ud rnd w : Int) (i : Nat) (ws : List Int) (hud : 0 < ud) :
+    wicLoop ud rnd i (w :: ws) =
+      if C18Kernels.wicHit (C18Kernels.wicSub rnd ud w).1 (C18Kernels.wicSub rnd ud w).2 then some i
+      else wicLoop ud (C18Kernels.wicSub rnd ud w).1 (i + 1) ws := by
+  obtain ⟨_, h2, _⟩ := kernel_wic 0 1 0 rnd ud w hud
+  have h3 := (kernel_wic 0 1 0 (rnd - w * ud) ud w hud).2.2
+  rw [h2]
+  simp only [h3, wicLoop, decide_eq_true_eq]
+
 
 end DendroModel.C18
